@@ -1,6 +1,12 @@
 package rules
 
-import "cadcheck/core"
+import (
+	"strings"
+
+	"golang.org/x/tools/go/ssa"
+
+	"cadcheck/core"
+)
 
 func init() {
 	register("C05", c05)
@@ -13,4 +19,67 @@ func c05(r *core.Run) {
 	r.NotDecided = "that the atree copy is deep for every shape (inlining thresholds); aliasing of nested containers at run time."
 	transferCopyProtocol(r, "R1.copy")
 	r.Floor("R1.copy", 9)
+
+	// R2 census: every native/visitor that copies values by calling Value.Transfer keeps its call sites
+	w := r.W
+	got := map[string]int{}
+	for _, fn := range w.SrcFuncs() {
+		if fn.Parent() != nil || fn.Pkg == nil {
+			continue
+		}
+		rel := core.RelPkg(fn.Pkg.Pkg.Path())
+		if rel != "interpreter" && rel != "stdlib" && rel != "bbq/vm" && rel != "runtime" {
+			continue
+		}
+		for _, c := range core.Calls(fn, true) {
+			if o := core.Callee(c); o != nil && (strings.HasPrefix(o.Name(), "Transfer") || strings.HasPrefix(o.Name(), "transfer")) && o.Pkg() != nil && core.InMod(o.Pkg().Path()) {
+				got[core.SSAKey(fn)+" -> "+o.Name()]++
+			}
+		}
+	}
+	genCounts(r, "c05_transfer_sites", got)
+	var pinned map[string]int
+	if r.Table("c05_transfer_sites", &pinned) {
+		for k, n := range pinned {
+			r.Check(got[k] >= n, "R2.census", k, 0, "value transfer (copy/move) call sites present ("+itoa(got[k])+")",
+				"a Value.Transfer call was removed from this function (pinned "+itoa(n)+", now "+itoa(got[k])+"): a value is passed on without being copied and aliases its source")
+		}
+	}
+	r.Floor("R2.census", 50)
+
+	// R3 dereference returns the copy: every value DereferenceValue returns is (a wrapper of) the Transfer result
+	if fn := mustFn(r, "R3.deref", "interpreter", "", "DereferenceValue"); fn != nil {
+		isTransferResult := func(v ssa.Value) bool {
+			v = core.Unwrap(v)
+			c, ok := v.(*ssa.Call)
+			if !ok {
+				return false
+			}
+			o := core.Callee(c)
+			return o != nil && o.Name() == "Transfer"
+		}
+		for _, ret := range core.Returns(fn) {
+			v := core.Unwrap(ret.Results[0])
+			ok := false
+			why := "returns a value that is not the result of Transfer"
+			switch x := v.(type) {
+			case *ssa.Const, *ssa.UnOp:
+				ok = true // Nil
+				if u, isU := x.(*ssa.UnOp); isU {
+					if _, isG := u.X.(*ssa.Global); !isG {
+						ok = false
+					}
+				}
+			case *ssa.Call:
+				if isTransferResult(x) {
+					ok = true
+				} else if o := core.Callee(x); o != nil && o.Name() == "NewSomeValueNonCopying" {
+					ok = isTransferResult(x.Call.Args[len(x.Call.Args)-1])
+					why = "wraps the referenced value itself instead of its transferred copy"
+				}
+			}
+			r.Check(ok, "R3.deref", "interpreter.DereferenceValue: "+retText(ret), ret.Pos(), "returns Nil or (a wrapper of) the transferred copy", "dereference "+why+": the result aliases the referenced value")
+		}
+	}
+	r.Floor("R3.deref", 2)
 }
